@@ -250,6 +250,17 @@ def run(ctx):
                 r3.undecidable(key, "Last rank of the %s candidate is not a constant" % src, site)
                 continue
             last_ranks[src] = const_val(rv)
+        if src == "autocorrect":
+            # the candidate is the parser's conversion of the table's entry on every path: an entry offered as it stands (Latin text) can equal the
+            # typed text, which the literal / English pushes add without looking (the list then holds one text twice)
+            alts = strip_refs(p.item)
+            alts = list(alts.a[0]) if alts.k == "phi" else [alts]
+            raw = [a_ for a_ in alts if not (strip_refs(peel_conv(a_)).k == "call" and strip_refs(peel_conv(a_)).a[0].endswith("Parser::convert"))
+                   and not contains_call(a_, lambda n: n.endswith("Parser::convert") or n.endswith("Parser::convert_into"))]
+            if raw and not p.closure:
+                r3.violation(key, "on some path the auto-correct candidate is the table's entry as it stands (%s), not its transliteration — a self-mapped entry "
+                             "(`xD` → `xD`) then equals the typed text and is listed again by the literal / English push" % (repr(raw[0])[:160],), site)
+                continue
         if src == "dictionary":
             # base of the distance must be the transliteration
             base_ok = _dictionary_base_is_transliteration(prog, p)
@@ -361,6 +372,44 @@ def run(ctx):
             r3.ok("user-first", "look-up = user entry .or_else(bundled entry)")
         else:
             r3.violation("user-first", "auto-correct look-up is %r — the user's entry must take precedence over the bundled one" % (ret,), common.fn_line(prog, sc[0]))
+    # … and both tables are asked for the typed word itself, once each: an entry found under another key (a lower-cased, trimmed or
+    # stemmed word) is not "the auto-correct entry for the typed word", and a second look-up per source lets another key's entry win
+    if len(sc) == 1:
+        from engine.analyses import subst_upvars as _su
+        lk_fn = sc[0]
+        asks = []
+        for k_ in [lk_fn] + sorted(prog.closures_of(lk_fn)):
+            kb_ = prog.body(k_)
+            for (bb_, t_) in kb_.calls():
+                n_ = callee_name(t_)
+                is_user = n_.endswith("HashMap::<K, V, S, A>::get") and any(
+                    (x.k == "field" and x.a[1] == _ph.roles(prog)["user_autocorrect"]) for x in _su(prog, k_, kb_.expr_operand(t_["args"][0])).walk()) \
+                    if prog.fns[k_].get("kind") == "Closure" else \
+                    (n_.endswith("HashMap::<K, V, S, A>::get") and self_path(kb_.expr_operand(t_["args"][0])) is not None
+                     and self_path(kb_.expr_operand(t_["args"][0]))[-1:] == (_ph.roles(prog)["user_autocorrect"],))
+                is_bundled = n_.startswith("data::Data::") and n_ in prog.fns and prog.fns[n_].get("output", "").startswith("std::option::Option<&")
+                if not (is_user or is_bundled):
+                    continue
+                key_e = kb_.expr_operand(t_["args"][1])
+                if prog.fns[k_].get("kind") == "Closure":
+                    key_e = _su(prog, k_, key_e)
+                key_e = strip_refs(peel_conv(key_e))
+                asks.append(("user" if is_user else "bundled", key_e, kb_, bb_))
+        lkb = prog.body(lk_fn)
+        bad_key = [(w, e_, kb_, bb_) for (w, e_, kb_, bb_) in asks if not (e_.k == "arg" and lkb.locals[e_.a[0]]["ty"] == "&str")]
+        n_user = sum(1 for a_ in asks if a_[0] == "user")
+        n_bund = sum(1 for a_ in asks if a_[0] == "bundled")
+        if not asks:
+            r3.undecidable("lookup-key", "no table look-up found in the auto-correct look-up", common.fn_line(prog, lk_fn))
+        elif bad_key:
+            w, e_, kb_, bb_ = bad_key[0]
+            r3.violation("lookup-key", "the %s auto-correct table is asked for %s, not for the typed word itself: an entry of another key can be offered as "
+                         "the word's auto-correct entry (and can pre-empt the word's own entry in the other table)" % (w, repr(e_)[:160]), site_of(kb_, bb_))
+        elif n_user != 1 or n_bund != 1:
+            r3.violation("lookup-key", "the auto-correct look-up asks the user table %d time(s) and the bundled table %d time(s); one look-up each, for the typed word"
+                         % (n_user, n_bund), common.fn_line(prog, lk_fn))
+        else:
+            r3.ok("lookup-key", "user table and bundled table are each asked once, for the typed word itself")
     # the distance constructor: edit_distance(base, item) through a monotone map
     for k, info in ctors.items():
         if info["variant"] != "Other":
@@ -422,7 +471,7 @@ def run(ctx):
                     r3.ok("sort", "sort dominates the selection look-up and the returned copy; no push after it")
                 else:
                     r3.violation("sort", "the selection look-up or the returned copy is not dominated by the sort", site_of(sb, sbb))
-    r3.floor(12, "6 sources + english guards + last-order + user-first + distance ctor + change-item + sort")
+    r3.floor(13, "6 sources + english guards + last-order + user-first + lookup-key + distance ctor + change-item + sort")
 
     # ---------------- R4 duplicates
     r4 = chk.rule("C07.R4", "dictionary/suffix items and the transliteration enter through the duplicate-suppressing push; equality is on text",
